@@ -260,6 +260,24 @@ theorem C09_param_rejected (prep meas : Option GateDefChoice) (c : Circuit) (par
   simp only [hmac, visitMacros, hb, visitStmt, if_true, bind, Except.bind, pure, Except.pure, callPos_nil, hp, if_false]
   exact ⟨_, rfl⟩
 
+/-- **C09_total_class.** Whenever the pass rejects a circuit (whose body is a block, as every built circuit's is) the
+exception is a `JaqalError`: a bounding definition with parameters, or a loop count `LoopStatement` refuses. -/
+theorem C09_total_class (prep meas : Option GateDefChoice) (c : Circuit) (par sub : Bool) (it : Val) (b : List Stmt)
+    (hb : c.body = .block par sub it b) :
+    ∀ err, expandSubcircuits prep meas c = .error err → ∃ r, err = .jaqal r := by
+  have h : JaqalOnly (expandSubcircuits prep meas c) := by
+    unfold expandSubcircuits
+    apply JaqalOnly.bind (visitMacros_class _ _ _)
+    intro ms _
+    apply JaqalOnly.bind (visitStmt_class _ _ _)
+    intro body hbody
+    have := visitStmt_spell _ _ _ _ hbody
+    rw [hb] at this
+    subst this
+    cases sub <;> simp only [spell, if_true, Bool.false_eq_true, if_false, statementsOf] <;>
+      exact JaqalOnly.bind (JaqalOnly.pure _) (fun _ _ => JaqalOnly.pure _)
+  exact h
+
 /-! ## Non-vacuity -/
 
 /-- `register r[2]; macro F x { subcircuit 5 { X x } }; loop 3 { subcircuit { F r[0]; < X r[1] > } }` with native
@@ -324,3 +342,4 @@ end Jaqal.ExpandSubcircuits
 #print axioms Jaqal.ExpandSubcircuits.C09_idempotent
 #print axioms Jaqal.ExpandSubcircuits.C09_total
 #print axioms Jaqal.ExpandSubcircuits.C09_param_rejected
+#print axioms Jaqal.ExpandSubcircuits.C09_total_class
